@@ -493,9 +493,9 @@ def union_steps(o, L, M, bad):
         n_exit = n_back = 0
         for p in outs:
             idx = [e for e in p.calls() if e[1].endswith("Index::index")]
-            if p.kind not in ("return", "backedge") or len(idx) != 1:
+            if p.kind not in ("return", "backedge") or not idx or any(e[2] != idx[0][2] for e in idx):
                 if p.kind in ("return", "backedge"):
-                    bad.append(("union", "%s: loop body does not read parents exactly once" % nm, None))
+                    bad.append(("union", "%s: loop body reads something other than parents[w]" % nm, None))
                 continue
             cur = idx[0][2][1]
             par = ex.raw_deref(p.state, idx[0][3])
@@ -529,17 +529,20 @@ def union_steps(o, L, M, bad):
         if p.kind != "return":
             continue
         cond = S.pc(p.pc)
-        gf = p.calls("IndexSet::get_full")
+        gf = [e for e in p.calls() if e[1] in ("IndexSet::get_full", "IndexSet::get_index_of")]
         if len(gf) != 1:
             bad.append(("union", "find does not look the tag up exactly once", None))
             continue
         hit = S.disc(S.v(gf[0][3])) == 1
+        full = gf[0][1].endswith("get_full")
         rd = p.calls("UnionFind::reduce")
         gi = p.calls("IndexSet::get_index")
         if p.ret[0] == "variant" and p.ret[2] == "None":
             L.expect_unsat("find: None only for an unknown tag", cond + [hit], on_sat)
         elif p.ret[0] == "variant" and p.ret[2] == "Some" and len(rd) == 1 and len(gi) == 1:
-            v = ms.proj(ms.proj(ms.proj(gf[0][3], ("v", "Some"), E), ("f", 0), E), ("f", 0), E)
+            v = ms.proj(ms.proj(gf[0][3], ("v", "Some"), E), ("f", 0), E)
+            if full:
+                v = ms.proj(v, ("f", 0), E)
             pair = p.ret[3][0]
             rep = ms.proj(ms.proj(gi[0][3], ("v", "Some"), E), ("f", 0), E)
             L.expect_unsat("find: returns tags[reduce(v)] and the flag reduce(v) != v",
@@ -585,7 +588,23 @@ def union_steps(o, L, M, bad):
             continue
         fd = p.calls("UnionFind::find")
         at = [e for e in p.calls() if e[1] == "Option::and_then"]
-        ok = len(fd) == 1 and len(at) == 1 and at[0][2][0] == fd[0][3] and closure_then_reduce(M, at[0][2][1])
+        if at:
+            ok = len(fd) == 1 and len(at) == 1 and at[0][2][0] == fd[0][3] and closure_then_reduce(M, at[0][2][1])
+        else:
+            # written as a match: decide from the path itself
+            rc = [e for e in p.calls() if e[1] == "union::reduce"]
+            ok = len(fd) == 1
+            if ok:
+                found = S.disc(S.v(fd[0][3])) == 1
+                pay = ms.proj(ms.proj(fd[0][3], ("v", "Some"), E), ("f", 0), E)
+                changed = z3.And(found, S.b(ms.proj(pay, ("f", 1), E)))
+                cond = S.pc(p.pc) + [S.disc(S.v(T)) == VAR]
+                if rc:
+                    v1, _ = S.check("reduce(var): recursion only after a change", cond + [z3.Not(changed)])
+                    ok = v1 == "unsat" and p.ret == rc[0][3] and any(t == ms.proj(pay, ("f", 0), E) for t in ms.subterms(rc[0][2][1]))
+                else:
+                    v1, _ = S.check("reduce(var): kept only without a change", cond + [changed])
+                    ok = v1 == "unsat" and any(t == T or t == ("sym", "tag") for t in ms.subterms(p.ret))
         o.query("reduce: a variable is replaced by reduce(representative) only when find reports a change, else kept", "mirsym/structural",
                 "unsat" if ok else "violated", 0)
         if not ok:
